@@ -123,6 +123,8 @@ def gen(rng, tier):
             "wal_old": rng.random() < 0.15, "prior_import": rng.random() < 0.6, "wal_force_first": rng.random() < 0.5,
             # how the old database was made and how the reading session opens it
             "dialect_given": rng.choice([None, None, None, True, "no_order"]),
+            # the reading session starts with a merge_all() that fails part-way on this handle
+            "failed_merge_all_first": {"nth": rng.randint(1, 12), "mode": rng.choice(["error", "cancel", "locked"])} if rng.random() < 0.15 else None,
             "open_kw": rng.choice([{}, {}, {"keep_order": True}, {"sort_attribute_values": True},
                                    {"keep_order": True, "sort_attribute_values": True}])}
     r = rng.random()
@@ -145,7 +147,7 @@ def _race(case, V, probes, journal, out):
     sol = []
     for i, inp in enumerate(inputs):
         with World("c19r_") as w0:
-            m = w0.node()
+            m = w0.node(prelude=False)  # reference: a fresh process
             r = w0.call(m, {"op": "create", "h": "h", "db": "r.db", "data": _src(inp, "path"), "kw": {"merge_strategy": "create_unique"}})
             m.close()
             sol.append(logical(raw_dump(w0.p("r.db"))) if r["ok"] else None)
@@ -262,6 +264,17 @@ def run(case):
                 d0 = d_open
             got_data = 0
             crashed = False
+            tolerate_txn = False
+            fm = case.get("failed_merge_all_first")
+            if fm:
+                rma = call(n, {"op": "merge_all", "h": "h", "kw": {}, "faults": [{"kind": "sql", "nth": fm["nth"], "mode": fm["mode"]}]})
+                if not rma["ok"]:
+                    probes["reads_after_failed_merge_all_on_same_handle"] = 1
+                st0 = call(n, {"op": "conn_state", "h": "h"})
+                tolerate_txn = bool(st0["ok"] and st0["in_transaction"])  # left open by the failed WRITE call: not the reads' doing
+                # merge_all is a write: what it stored before failing (or in full) is the content the reads must leave alone
+                d0 = file_digest(path)
+                l0 = logical(raw_dump(path))
             for j, rd in enumerate(case["reads"]):
                 if j == case.get("gc_at"):
                     call(n, {"op": "gc"})
@@ -279,7 +292,7 @@ def run(case):
                 if r["ok"] and r.get("out"):
                     got_data += 1
                 st = call(n, {"op": "conn_state", "h": "h"})
-                if st["ok"] and st["in_transaction"]:
+                if st["ok"] and st["in_transaction"] and not tolerate_txn:
                     V.append(viol("C19.reads", "after %s the handle is inside a transaction" % rd["m"], kind="in_transaction", m=rd["m"]))
                     break
                 dj = file_digest(path)
@@ -298,7 +311,7 @@ def run(case):
                     st = call(n, {"op": "conn_state", "h": "h"})
                     if file_digest(path) != d0:
                         V.append(viol("C19.reads", "interleaved read-style iterations changed the database file", kind="file_changed", m="interleaved"))
-                    elif st["ok"] and st["in_transaction"]:
+                    elif st["ok"] and st["in_transaction"] and not tolerate_txn:
                         V.append(viol("C19.reads", "after interleaved read-style iterations the handle is inside a transaction", kind="in_transaction",
                                       m="interleaved"))
                     elif ri["ok"]:
@@ -360,7 +373,7 @@ def run(case):
                     dz = call(o2, {"op": "dump", "h": "o", "relations": False})
                     o2.close()
                     with World("c19w_") as w3:
-                        m3 = w3.node()
+                        m3 = w3.node(prelude=False)  # reference: a fresh process
                         w3.call(m3, {"op": "create", "h": "y", "db": "a.db", "data": _src(case["new"], case["form"]), "kw": {"merge_strategy": "create_unique"}})
                         dref = w3.call(m3, {"op": "dump", "h": "y", "relations": False})
                         m3.close()
@@ -445,7 +458,7 @@ def run(case):
                     n.close()
                     got = logical(raw_dump(path))
                     with World("c19f_") as w2:
-                        m = w2.node()
+                        m = w2.node(prelude=False)  # reference: a fresh process
                         rr = w2.call(m, {"op": "create", "h": "y", "db": "a.db", "data": _src(case["new"], case["form"]),
                                          "kw": {"merge_strategy": "create_unique"}})
                         rd2 = w2.call(m, {"op": "dump", "h": "y"})
